@@ -126,8 +126,9 @@ func TestVerifC18Startup(t *testing.T) {
 	defer debug.SetGCPercent(gcWas)
 	n := 0
 	leakWait := 50 // x 100 ms
+	leaks := 0
 	for fi, fk := range failing {
-		for idx := 0; idx < 3; idx++ {
+		for idx := 0; idx < 3 && leaks < 8; idx++ { // (eight leaking configurations are evidence enough: the rest would only cost time)
 			cfg := &Config{}
 			type bound struct {
 				kind string
@@ -224,6 +225,7 @@ func TestVerifC18Startup(t *testing.T) {
 				}
 				if len(extra) > 0 {
 					leakWait = 5 // a tree that leaks does so in many of the configurations: the patience is for the first one
+					leaks++
 					rep.Violate("C18:startup:socket-leaked:"+fk, fmt.Sprintf("after the failed start-up the process holds %d socket(s) it did not hold before (inodes %v): %s", len(extra), extra, desc), nil)
 				}
 			}
